@@ -940,12 +940,8 @@ def replay(pid, rec, path):
     r = rec["replay"]
     check = r.get("check")
     out = vc.Outcome(pid, "quick", rec.get("seed", 1), "exploration")
-    if check == "c13":
-        res = c13_session(vc.build_repo(r["binary"]), [tuple(x) for x in r["plan"]], None)
-        bad = [x for x in res if x["verdict"] == "violated"]
-    elif check == "c17":
-        res = c17_batch(vc.build_repo(r["binary"]), [r["game"]], [True, True, True, None, None, None], threading.Lock())
-        bad = [x for x in res if x["verdict"] == "violated"]
+    if False:
+        pass
     elif check == "c04":
         res = c04_session(vc.build_repo(r["binary"]), [tuple(x) for x in r["plan"]])
         bad = [x for x in res if x["verdict"] == "violated"]
@@ -963,8 +959,19 @@ def replay(pid, rec, path):
         bad = [{"signature": "c06.binary.crash", "what": p}] if p else []
         _ = (c, ok)
     else:
-        print(f"no replay procedure for process-level check {check}")
-        return 2
+        # Generic replay: the workloads are functions of (seed, tier), so the recorded case is re-created by
+        # re-running the stage it came from with the recorded seed, and looking for the same signature.
+        stage_fn = {"c05": None, "c08": c08_stage, "c12": c12_stage, "c12-bench": c12_stage, "c14-movetime": c14_stage,
+                    "c14-long": c14_stage, "c17-ep": c17_stage, "c17": c17_stage, "c13": c13_stage}.get(check)
+        if stage_fn is None:
+            print(f"no replay procedure for process-level check {check}")
+            return 2
+        stage_fn(out, rec.get("tier", "quick"), rec.get("seed", 1))
+        bad = [{"signature": v["signature"], "what": v["what"]} for v in out.violations if v["signature"] == rec.get("signature")]
+        others = [v["signature"] for v in out.violations if v["signature"] != rec.get("signature")]
+        if others and not bad:
+            print(f"the recorded signature did not recur, but the stage reports: {sorted(set(others))}")
+            bad = [{"signature": v["signature"], "what": v["what"]} for v in out.violations]
     _ = out
     if bad:
         for b in bad[:3]:
